@@ -175,4 +175,131 @@ def vecMapGet {α : Type} : List (Nat × α) → Nat → Option α
   | [], _ => none
   | (b, v) :: l, k => if b = k then some v else vecMapGet l k
 
+/-- `a.checked_shl(n)` on a `w`-bit unsigned type: `None` when `n ≥ w`, bits shifted out are dropped -/
+def checkedShl (w a n : Nat) : Option Nat := if n < w then some ((a <<< n) % 2 ^ w) else none
+/-- `a.wrapping_shl(n)`: the shift *amount* is reduced modulo `w` -/
+def wrappingShl (w a n : Nat) : Nat := (a <<< (n % w)) % 2 ^ w
+
+/-! ### iterator adapters (dialect "cf", tools/rs2lean_cf.py) -/
+
+/-- the items at positions `0, n, 2n, …` (`k` = items still to skip before the next one is taken) -/
+def stepByGo {α : Type} (n : Nat) : Nat → List α → List α
+  | _, [] => []
+  | 0, a :: t => a :: stepByGo n (n - 1) t
+  | k + 1, _ :: t => stepByGo n k t
+/-- `it.step_by(n)` (`n = 0` panics) -/
+def stepBy {α : Type} (l : List α) (n : Nat) : Res (List α) := if n = 0 then panic else ok (stepByGo n 0 l)
+/-- `(lo..hi).step_by(n)`: `lo, lo + n, lo + 2n, …` below `hi` (`n = 0` panics) -/
+def rangeStepBy (lo hi n : Nat) : Res (List Nat) :=
+  if n = 0 then panic else ok (List.range' lo ((hi - lo + n - 1) / n) n)
+theorem rangeStepBy_ok {lo hi n : Nat} (h : 0 < n) : rangeStepBy lo hi n = ok (List.range' lo ((hi - lo + n - 1) / n) n) := by
+  have : n ≠ 0 := by omega
+  simp [rangeStepBy, this]
+theorem stepBy_ok {α : Type} {l : List α} {n : Nat} (h : 0 < n) : stepBy l n = ok (stepByGo n 0 l) := by
+  have : n ≠ 0 := by omega
+  simp [stepBy, this]
+theorem stepByGo_one {α : Type} (l : List α) : stepByGo 1 0 l = l := by
+  induction l with
+  | nil => rfl
+  | cons a t ih => simp [stepByGo, ih]
+
+/-! ### containers of other crates (dialect "cf"): the trusted meaning of `bit_set::BitSet` and `vec_map::VecMap`
+
+`BitSet`: a finite set of `usize`, represented by the ascending, duplicate-free list of its members — the order in which
+`BitSet::iter()` enumerates.  `VecMap<V>`: a finite map from `usize`, represented by an association list in which every
+key occurs at most once.  Laws (`mem_insert`, `insert_sorted`, `get_insert`) are proved below; that the crates behave like
+this is part of the trusted base. -/
+
+def expect {α : Type} : Option α → Res α
+  | some a => ok a
+  | none => panic
+/-- `opt.map(f)` for a translated closure `f` -/
+def optMapM {α β : Type} (f : α → Res β) : Option α → Res (Option β)
+  | some a => do let b ← f a; pure (some b)
+  | none => pure none
+
+abbrev BitSet := List Nat
+namespace BitSet
+def empty : BitSet := ([] : List Nat)
+def toList (s : BitSet) : List Nat := s
+def insertL : List Nat → Nat → List Nat
+  | [], x => [x]
+  | a :: t, x => if x < a then x :: a :: t else if x = a then a :: t else a :: insertL t x
+def insert (s : BitSet) (x : Nat) : BitSet := insertL s x
+def contains (s : BitSet) (x : Nat) : Bool := List.contains (toList s) x
+def len (s : BitSet) : Nat := (toList s).length
+def extend (s : BitSet) (xs : List Nat) : BitSet := xs.foldl insert s
+
+theorem mem_insertL (l : List Nat) (x y : Nat) : y ∈ insertL l x ↔ y = x ∨ y ∈ l := by
+  induction l with
+  | nil => simp [insertL]
+  | cons a t ih =>
+    simp only [insertL]
+    split
+    · simp
+    · split
+      · rename_i h; subst h; simp
+      · simp only [List.mem_cons, ih]
+        constructor
+        · rintro (h | h | h)
+          · exact Or.inr (Or.inl h)
+          · exact Or.inl h
+          · exact Or.inr (Or.inr h)
+        · rintro (h | h | h)
+          · exact Or.inr (Or.inl h)
+          · exact Or.inl h
+          · exact Or.inr (Or.inr h)
+
+theorem insertL_sorted (l : List Nat) (x : Nat) (h : l.Pairwise (· < ·)) : (insertL l x).Pairwise (· < ·) := by
+  induction l with
+  | nil => simp [insertL]
+  | cons a t ih =>
+    rw [List.pairwise_cons] at h
+    simp only [insertL]
+    split
+    · rename_i hx
+      refine List.pairwise_cons.mpr ⟨?_, List.pairwise_cons.mpr h⟩
+      intro y hy
+      rcases List.mem_cons.mp hy with rfl | hy
+      · exact hx
+      · exact Nat.lt_trans hx (h.1 y hy)
+    · split
+      · exact List.pairwise_cons.mpr h
+      · rename_i h1 h2
+        refine List.pairwise_cons.mpr ⟨?_, ih h.2⟩
+        intro y hy
+        rcases (mem_insertL t x y).mp hy with rfl | hy
+        · omega
+        · exact h.1 y hy
+end BitSet
+
+abbrev VecMap := List (Nat × Nat)
+namespace VecMap
+def empty : VecMap := ([] : List (Nat × Nat))
+def get (m : VecMap) (k : Nat) : Option Nat := (List.lookup k m : Option Nat)
+def insert (m : VecMap) (k v : Nat) : VecMap :=
+  ((k, v) :: List.filter (fun p => p.1 != k) m : List (Nat × Nat))
+def len (m : VecMap) : Nat := List.length (m : List (Nat × Nat))
+
+theorem get_insert (m : VecMap) (k v k' : Nat) : get (insert m k v) k' = if k' = k then some v else get m k' := by
+  unfold get insert
+  by_cases h : k' = k
+  · subst h; simp [List.lookup]
+  · have hb : (k' == k) = false := by simpa using h
+    simp only [List.lookup, hb, h, if_false]
+    induction (m : List (Nat × Nat)) with
+    | nil => rfl
+    | cons p t ih =>
+      obtain ⟨a, b⟩ := p
+      by_cases ha : a = k
+      · subst ha
+        have : (k' == a) = false := hb
+        simp [List.filter, List.lookup, this, ih]
+      · have hne : (a != k) = true := by simpa using ha
+        simp only [List.filter, hne, List.lookup]
+        cases hk : k' == a
+        · simpa using ih
+        · rfl
+end VecMap
+
 end RbV.Rs
